@@ -2,7 +2,7 @@
 (* Stage (B) for C03: TLC enumerates selector x length x content class.  Bytes are concretised by   *)
 (* the driver from (class, len, VERIF_SEED).  quick is a filter of the same set expression as        *)
 (* thorough.  A few seed-dependent lengths (computed here from VERIF_SEED) rotate through 0..2^16.   *)
-EXTENDS Codec, Json, IOUtils, SequencesExt
+EXTENDS Codec, CodecHist, Json, IOUtils, SequencesExt
 
 Thorough == IOEnv.VERIF_TIER = "thorough"
 SeedN    == atoi(IOEnv.VERIF_SEED)
@@ -57,13 +57,30 @@ HistCases == {[kind |-> "hist", m |-> SPARSE, cls |-> "zeros", len |-> 2097152, 
               [kind |-> "hist", m |-> ZLIB, cls |-> "text", len |-> 2097152, calls |-> 600],
               [kind |-> "hist", m |-> BZIP2, cls |-> "text", len |-> 1048577, calls |-> IF Thorough THEN 1100 ELSE 120]}
 
+\* Call histories (CodecHist): a failed call followed by round trips on the same and on another thread.  For every supported
+\* selector mb and every damage kind d (resp. a refused compress): the round trips the negative-control model says the failed
+\* call endangers (SensitiveToBad: the selectors sharing the hit stage) plus mb itself run BEFORE the failed call on thread 1
+\* (reference observations), then the failed call on thread 1, then the same round trips on thread 2 and on thread 1.
+\* Units: one sector (4 KiB) and more than one zlib window (64 KiB + a seed-rotated multiple of 4).
+UnitCls(m) == IF LossySel(m) THEN "pcm" ELSE IF m = SPARSE THEN "sparse7f" ELSE "text"
+HistLens == {4096, 65536 + 4 * (1 + (SeedN % 1000))}
+CallOp(t, o, m, n, d) == [thr |-> t, op |-> o, m |-> m, cls |-> UnitCls(m), len |-> n, dmg |-> d]
+Goods(t, G, n) == LET sq == SetToSeq(G) IN [j \in 1..Len(sq) |-> CallOp(t, "good", sq[j], n, "-")]
+HistoryOf(G, failing, n) == Goods(1, G, n) \o <<failing>> \o Goods(2, G, n) \o Goods(1, G, n)
+CallHistories ==
+  {[kind |-> "calls", m |-> mb, dmg |-> d, len |-> n,
+    ops |-> HistoryOf(SensitiveToBad(mb, d) \cup {mb}, CallOp(1, "bad", mb, n, d), n)] : mb \in HSel, d \in HDamage, n \in HistLens}
+  \cup {[kind |-> "calls", m |-> mb, dmg |-> "misaligned", len |-> n + 1,
+         ops |-> HistoryOf(SensitiveToBadC(mb) \cup {mb}, CallOp(1, "badc", mb, n + 1, "-"), n)] : mb \in AdpcmSelectors, n \in HistLens}
+ASSUME \A mb \in AdpcmSelectors, n \in HistLens : ~AdpcmAligned(mb, n + 1) /\ AdpcmAligned(mb, n)
+
 CaseSet == IF Thorough THEN Full ELSE {c \in Full : InQuick(c)} \cup QuickBig
 ASSUME QuickBig \subseteq Full
-Cases == SetToSeq(CaseSet) \o SetToSeq(TailCases) \o SetToSeq(RatioCases) \o SetToSeq(HistCases)
+Cases == SetToSeq(CaseSet) \o SetToSeq(TailCases) \o SetToSeq(RatioCases) \o SetToSeq(HistCases) \o SetToSeq(CallHistories)
 \* Codec declares state variables; the generator is a constant-level evaluation with a trivial behaviour
 GOne(n) == {1}
-GInit == CInitWith({0}, {0}, GOne)
-GNext == UNCHANGED cvars
+GInit == CInitWith({0}, {0}, GOne) /\ HInit
+GNext == UNCHANGED <<cvars, hvars>>
 ASSUME ndJsonSerialize(IOEnv.CASES, Cases)
 ASSUME PrintT(<<"GENERATED", Len(Cases)>>)
 =============================================================================
